@@ -30,14 +30,16 @@ def check_best(res, direction):
     return OK
 
 
-def ob_scripted(k, cycles, dname, inf):
+def ob_scripted(k, cycles, dname, inf, ps=None):
+    """ps: configured population_size when it differs from the size of the live population (mu+lambda style rules
+    leave more agents than population_size, shrinking rules fewer): the generation is recorded as it stands"""
     direction = DIRS[dname]
 
     def f():
         with env(allow_seed=True):
             gens = [[agent((g, i), (sym.ext_real if inf and g == cycles else sym.real)(f"c{g}.{i}"), fitness=0.5)
                      for i in range(k)] for g in range(cycles + 1)]          # +-inf kinds in the last generation
-            opt = Scripted(M.BaseOptimizationConfig(population_size=k, fitness_error=None, max_cycles=cycles),
+            opt = Scripted(M.BaseOptimizationConfig(population_size=ps or k, fitness_error=None, max_cycles=cycles),
                            init=lambda o: list(gens[0]), step=lambda o, c: setattr(o, "_population", list(gens[c])))
             res = opt.optimize(make_task([cont()], lambda x, i: 0.0, minmax=direction))
             if len(res.evolution) != cycles + 1:
@@ -88,6 +90,9 @@ def obligations(tier):
                     continue
                 obs.append(Ob(f"scripted[k={k},cycles={cycles},{d},inf={int(inf)}]",
                               ob_scripted(k, cycles, d, inf), 900 if (k, cycles) in ((4, 1), (3, 2), (2, 3)) else 300))
+    for d in ("min", "max"):
+        obs.append(Ob(f"scripted_oversize[k=3,ps=2,{d}]", ob_scripted(3, 1, d, False, ps=2), 300))
+        obs.append(Ob(f"scripted_undersize[k=2,ps=4,{d}]", ob_scripted(2, 1, d, False, ps=4), 300))
     for k, cycles in ((2, 1), (3, 1)):
         obs.append(Ob(f"scripted[k={k},cycles={cycles},max-str,inf=0]", ob_scripted(k, cycles, "max-str", False), 300))
     for mode in ("thread", "process"):
